@@ -216,6 +216,8 @@ def ieval(g, rd, f, idx, ctx, env, depth=0):
             return ieval(g, rd, f, n['args'][0], ctx, env, depth + 1)
         c = strip_targs(n.get('c', '') or '')
         last = c.rsplit('::', 1)[-1]
+        if ('call:' + last) in env:
+            return env['call:' + last]
         if n.get('op') == '[]' and n.get('obj') is not None and n.get('args'):
             b = env.get(path_str(access_path(f, n['obj'], ctx)) + '.data()')
             i = ieval(g, rd, f, n['args'][0], ctx, env, depth + 1)
